@@ -78,6 +78,14 @@ CHECKS = {
   text='Exhaustive enumeration of every call history of length <= 3 (quick) / <= 4 (thorough) over a 19-action alphabet from both the never-set-up and the set-up state, random histories to length 12 with log files and the other sift variants, and random histories replayed in fresh interpreters; a model of the console level is compared with get_level() after every step, outputs with a logging-free baseline, and console traffic during each call with the effective level.',
   note='The never-set-up state is re-created in-process (validated by the fresh-interpreter clause); console output goes to a counting stream.',
   technique='model-based testing of call histories: exhaustive to depth 3/4, random beyond'),
+ 'C15': dict(
+  text='Model-based testing of container call histories: Hypothesis draws a phase series and up to 12 operations (metric computation in cycle / augmented mode, metric addition, timings, subset selection with 1-3 condition strings over all six comparators and integer / negative / decimal / exponent literals, chain timings, table export) applied in lock-step to a cache-on and a cache-off container; a reference model on the independently recomputed cycle partition is compared after every step.',
+  note='Documented rejections (chain metrics before a subset, empty selections, wrong-length metrics) are accepted. One open known finding (two definitions of the augmented segment on non-monotone cycles) is excluded by construction and counted; the search continues behind it.',
+  technique='model-based (stateful) property testing of operation histories with a lock-step twin and a reference model'),
+ 'C18': dict(
+  text='Hypothesis-generated edit histories on twin configurations (slash paths vs nested indexing) with values of every supported kind at depth 1-3, default-config faithfulness for all four variants, and behavioural YAML round trips through both the file and the text/stream route (same sift_type, same options modulo tuple/array->list, identical sift output, saved object untouched).',
+  note='PyYAML trusted; ensemble variants compared with a re-seeded RNG.',
+  technique='model-based testing of edit histories (twin comparison) + round-trip property testing'),
 }
 
 NOT_APPLICABLE = [{'property_id': p, 'reason': 'check not built yet in this round (planned with the same technique, see DESIGN.md section 2)'}
